@@ -3,6 +3,7 @@ package main
 // Memory model: frame cells (Go-level) + heap regions (SMT arrays, one per type/field path).
 
 import (
+	"os"
 	"fmt"
 	"go/types"
 	"math/big"
@@ -79,6 +80,14 @@ func (st *State) region(ex *Exec, name string, s *Sort) *Term {
 	}
 	t := ex.ts.Const(sym, s)
 	st.heap[name] = t
+	if sym == "H|"+name {
+		// the region as it was when the function was entered (or an immutable region): every reference stored in it
+		// was allocated before the function started
+		if ex.entryRegions == nil {
+			ex.entryRegions = map[*Term]bool{}
+		}
+		ex.entryRegions[t] = true
+	}
 	return t
 }
 
@@ -131,8 +140,19 @@ func (ex *Exec) loadLoc(l Loc) Val {
 	if ex.guardCheck != nil {
 		ex.guardCheck(l, false)
 	}
+	ex.readEntryOnly = true
 	v := ex.readTyped(l, l.Typ, l.PathS)
-	ex.assumeWF(v, l.Typ)
+	if ex.readEntryOnly && ex.st.heapEpoch == 0 && os.Getenv("GOVC_NOENTRYNA") == "" {
+		// read from regions not written since the function was entered: references found there are at most na0
+		saved := ex.st.na
+		ex.wfNA = ex.ts.Const("na0", SInt)
+		ex.assumeWF(v, l.Typ)
+		ex.wfNA = nil
+		_ = saved
+	} else {
+		ex.assumeWF(v, l.Typ)
+	}
+	ex.readEntryOnly = false
 	return v
 }
 
@@ -140,9 +160,15 @@ func (ex *Exec) leafTerm(l Loc, name string, lf leaf) *Term {
 	ts := ex.ts
 	if l.Kind == LObj {
 		r := ex.st.region(ex, name, ex.regionSort(lf, false))
+		if !ex.entryRegions[r] {
+			ex.readEntryOnly = false
+		}
 		return ts.Select(r, l.Ref)
 	}
 	r := ex.st.region(ex, name, ex.regionSort(lf, true))
+	if !ex.entryRegions[r] {
+		ex.readEntryOnly = false
+	}
 	return ts.Select(ts.Select(r, l.Base), l.Idx)
 }
 
